@@ -35,7 +35,10 @@ Frag == << <<101, 118, 97, 108, 40, 49, 41>>,                                   
            <<97, 32, 40, 98, 41>>,                                                          \* a (b)
            <<83, 117, 109, 40, 49, 41>>,                                                    \* Sum(1)
            <<61, 65, 49, 43, 108, 101, 110, 40, 34, 120, 34, 41>>,                          \* =A1+len("x")
-           <<120, 61, 102, 40, 49, 41, 59, 32, 103, 40, 50, 41>> >>                         \* x=f(1); g(2)
+           <<120, 61, 102, 40, 49, 41, 59, 32, 103, 40, 50, 41>>,                           \* x=f(1); g(2)
+           <<101, 118, 97, 108, 40, 40, 49, 43, 50, 41, 42, 51, 41>>,          \* eval((1+2)*3)   a bracketed sub-expression inside the call
+           <<61, 65, 49, 43, 101, 120, 101, 99, 40, 40, 50, 41, 41>>,             \* =A1+exec((2))
+           <<111, 115, 46, 115, 121, 115, 116, 101, 109, 40, 40, 34, 108, 115, 34, 41, 41>> >>   \* os.system(("ls"))
 GCols == 1..4
 GRows == 1..5
 Places == {<<s, c, r>> : s \in 1..2, c \in GCols, r \in GRows}
